@@ -29,6 +29,7 @@ ALL_FEATURES = [
     "alloptions", "shape_change", "never_keys", "partial_section_preset",
     "coalesce_value_fail",  # coalesce members that can fail because of a *value* (domain / switch)
     "abstract", "selector_ds", "step_params", "pipelines",
+    "opt_type",  # Options with a declared type (type validation requests)
     "callback_params",  # callbacks that are pipeline steps reading an option of their own
     "iter",  # tuples built with labrea.Iter(...).apply(tuple) (lazy members)
 ]
@@ -154,6 +155,8 @@ class SpecGen:
             node["default"] = {"t": "factory", "v": self.const()}
         elif x < 0.95 and cfg["opt_default_expr"] and self.nodes:
             node["default"] = {"t": "expr", "n": self.pick_any()}
+        if cfg.get("opt_type") and r.random() < 0.25:
+            node["type"] = r.choice(["int", "str", "object"])
         if cfg["opt_domain"] and r.random() < 0.25:
             y = r.random()
             if y < 0.45:
